@@ -143,4 +143,7 @@ def run(tier):
     ck.instance("R3.reguard", "from_saved_state calls Guard::guard", F.short_span(fs.span), ok=regs)
     if not regs:
         ck.finding("R3.reguard", "R3.reguard/from_saved_state", F.short_span(fs.span), "from_saved_state no longer guards the restored registers: they are unrooted after a resume")
+    # ---- R4 wake-up: a suspended context whose awaited promise settled must become ready whatever route settled it
+    import c08
+    c08.wake_up_rule(fx, ck, "R4.wake-up")
     return ck.finish()
